@@ -236,6 +236,7 @@ func (e *Engine) evalBuiltin(name string, cx *ast.CallExpr, st *State) Value {
 		ref := e.fresh("new_"+typeShort(t), SRef)
 		e.localRefs[ref.String()] = true
 		e.dynType[ref.String()] = types.NewPointer(t)
+		e.noteAlloc(st, ref)
 		if dn := dynTypeName(t); dn != "" {
 			st.assume(mkEq(mkApp("dyntype", SInt, ref), typeTag(dn)))
 		}
@@ -924,6 +925,16 @@ func (e *Engine) callContract(c *Contract, fn *types.Func, recvName string, recv
 		case VTerm:
 			if r.T.Sort == SRef {
 				e.localRefs[r.T.String()] = true
+				// a result of static type *T (T a concrete named struct) has that dynamic type: method calls through an
+				// interface it is later stored in resolve to T's methods
+				if pt, ok := rt.Underlying().(*types.Pointer); ok {
+					if _, isStruct := pt.Elem().Underlying().(*types.Struct); isStruct {
+						if dn := dynTypeName(pt.Elem()); dn != "" {
+							e.dynType[r.T.String()] = rt
+							st.assume(mkEq(mkApp("dyntype", SInt, r.T), typeTag(dn)))
+						}
+					}
+				}
 			}
 		}
 		results = append(results, v)
@@ -946,10 +957,30 @@ func (e *Engine) callContract(c *Contract, fn *types.Func, recvName string, recv
 			}
 		}
 	}
+	// the callee may allocate
+	e.advanceAlloc(st)
 	// ensures
 	for _, cl := range c.byKind("ensures", "") {
 		t := term(e.evalSpec(cl.Expr, mkEnv(st, pre)))
 		st.assume(t)
+		// objects the callee promises to be fresh (top-level conjuncts fresh(x)) belong to the caller now: it may write them
+		var conj func(x *SExpr)
+		conj = func(x *SExpr) {
+			if x.Kind == "binary" && x.Val == "&&" {
+				conj(x.Args[0])
+				conj(x.Args[1])
+				return
+			}
+			if x.Kind == "call" && len(x.Args) == 2 && x.Args[0].Kind == "ident" && x.Args[0].Val == "fresh" {
+				func() {
+					defer func() { recover() }()
+					if v, ok := e.evalSpec(x.Args[1], mkEnv(st, pre)).(VTerm); ok && v.T.Sort == SRef {
+						e.localRefs[v.T.String()] = true
+					}
+				}()
+			}
+		}
+		conj(cl.Expr)
 	}
 	// assumes: postconditions of a function under contract that are NOT checked against its body (effects that live
 	// outside the verifier's subset, e.g. what a reflection-based codec leaves in a file); reported as assumptions
